@@ -31,6 +31,7 @@ type Quant struct {
 	Offs []Term // offsets OFF of index terms (+ OFF (f var)) used with the bound variable: instantiation patterns
 	Idx  []Term // full index terms mentioning the bound variable
 	// typed (non-index) quantifiers: alls(h, p, body)
+	Ex     bool     // existential at a positive position (witness candidates are offered to the solver)
 	TVars  []string // SMT names
 	TNames []string // source names
 	TSort  string
@@ -590,7 +591,7 @@ func (e *Env) evalCall(n ECall) Val {
 		e2.inQuant = e.inQuant + 1
 		e2.qvars = append(append([]string{}, e.qvars...), name)
 		var q *Quant
-		outer := e.rec != nil && e.inQuant == 0 && e.polarity() == 1 && n.Fun == "forall"
+		outer := e.rec != nil && e.inQuant == 0 && e.polarity() == 1
 		if outer {
 			q = &Quant{Var: name}
 			e.rec.cur = q
@@ -609,7 +610,13 @@ func (e *Env) evalCall(n ECall) Val {
 			}
 			return specVal(t, SBool)
 		}
-		return specVal("(exists (("+name+" Int)) (and "+rng+" "+body.T+"))", SBool)
+		t := "(exists ((" + name + " Int)) (and " + rng + " " + body.T + "))"
+		if outer {
+			q.Text, q.Rng, q.Body, q.Ex = t, rng, body.T, true
+			e.rec.Quants = append(e.rec.Quants, q)
+			e.rec.cur = nil
+		}
+		return specVal(t, SBool)
 	case "typeof":
 		argn(1)
 		v := e.eval(n.Args[0])
